@@ -369,6 +369,19 @@ def r5_unknown(chk, prog):
               'being handed to handleIdentifiedArg')
 
 
+def read_mode_carriers(prog):
+    """members of TypedArgBase that assignValue() sets from its ignore_cardinality parameter before assign()"""
+    av = prog.one('celma::prog_args::detail::TypedArgBase', 'assignValue')
+    ign = av.params[0]['name']
+    assigns = [c for c in av.calls() if callee_is(c, 'TypedArgBase::assign')]
+    res = set()
+    for n in av.walk():
+        if n.get('k') == 'BinaryOperator' and n.get('op') == '=' and field_name(children(n)[0]) and \
+                mentions_var(children(n)[1], ign) and all(av.cfg.node_dominates(n, a) for a in assigns):
+            res.add(field_name(children(n)[0]))
+    return res
+
+
 def r6_cardinality(chk, prog):
     f = prog.one('celma::prog_args::detail::TypedArgBase', 'assignValue')
     cfg = f.cfg
@@ -417,7 +430,9 @@ def r6_cardinality(chk, prog):
                         continue
                     fields = {x['ref']['name'] for x in walk(cn)
                               if x.get('k') == 'MemberExpr' and x.get('ref', {}).get('dk') == 'Field'}
-                    extra = fields - {'mpCardinality'}
+                    # the member through which assignValue() tells assign() that the value does not come from the
+                    # command line is a legitimate guard (C03-R5 decides that it is set from ignore_cardinality)
+                    extra = fields - {'mpCardinality'} - read_mode_carriers(prog)
                     if extra:
                         ok = False
                         detail = 'gotValue() additionally guarded by %s' % sorted(extra)
